@@ -6,7 +6,8 @@
     (registry consistent: symbol <-> min unit), [WF] (the stores have distinct keys) and the invariant [K]
     proved here over their handlers (every stored token passes Token.Validate; the owner index holds exactly
     the (owner, symbol) pairs of the tokens; burned totals are not negative; the parameters pass
-    Params.Validate and the fee denom stays a registered symbol) the genesis-level [invb] follows for the
+    Params.Validate and the fee denom is a registered symbol — the repaired msgServer.UpdateParams, which their
+    model follows, refuses any other) the genesis-level [invb] follows for the
     abstraction of the state.
 
     [abs] takes as parameters what the message model does not have: the numberings [rs] of symbols, [rm] of min
@@ -38,8 +39,10 @@ Definition Kf (fee : M.name) (toks : amap M.name M.token) (own : list (M.acct * 
   /\ (forall d v, In (d, v) bur -> 0 <= v)
   /\ (pars_good prs /\ M.p_fee_denom prs = fee)
   /\ (exists t, get fee toks = Some t).
+(** [fee] is the fee denom of the state's parameters; a MsgUpdateParams may change it — to a REGISTERED symbol only,
+    since "fix: token MsgUpdateParams rejects an issue fee denominated in an unregistered symbol" *)
 
-Definition K (fee : M.name) (s : M.state) : Prop := Kf fee (M.tokens s) (M.owned s) (M.burned s) (M.pars s).
+Definition K (s : M.state) : Prop := Kf (M.p_fee_denom (M.pars s)) (M.tokens s) (M.owned s) (M.burned s) (M.pars s).
 
 Lemma owned_upsert s t : M.owned (M.upsert_token s t) = M.add_owned (M.t_owner t) (M.t_symbol t) (M.owned s).
 Proof. unfold M.upsert_token. destruct (M.t_contract t =? 0); reflexivity. Qed.
@@ -117,7 +120,7 @@ Proof.
   intros d0 v Hin. apply In_set_inv in Hin. destruct Hin as [Heq|Hin]; [inversion Heq; subst; exact Hx|exact (K3 _ _ Hin)].
 Qed.
 
-Lemma K_bank_only fee s s' : MB.bank_only s s' -> K fee s -> K fee s'.
+Lemma K_bank_only s s' : MB.bank_only s s' -> K s -> K s'.
 Proof.
   intros Hb Hk. apply MB.bank_only_fields in Hb. destruct Hb as (Ht & _ & Ho & _ & Hbu & _ & Hp & _).
   unfold K. rewrite Ht, Ho, Hbu, Hp. exact Hk.
@@ -130,14 +133,14 @@ Proof.
   MB.inv_if H. MB.inv_if H. MB.inv_if H. lia.
 Qed.
 
-Lemma burned_of_nonneg fee s d : K fee s -> 0 <= M.burned_of s d.
+Lemma burned_of_nonneg s d : K s -> 0 <= M.burned_of s d.
 Proof.
   intros (_ & _ & K3 & _). unfold M.burned_of, M.getz. destruct (get d (M.burned s)) as [v|] eqn:E; [|lia].
   exact (K3 d v (get_In _ _ _ E)).
 Qed.
 
-Lemma handle_K fee s m s' : MP.IdInv s -> K fee s -> MW.c09_msg m -> M.validate_basic m = true ->
-  M.handle s m = M.ROk s' -> K fee s'.
+Lemma handle_K s m s' : MP.IdInv s -> K s -> MW.c09_msg m -> M.validate_basic m = true ->
+  M.handle s m = M.ROk s' -> K s'.
 Proof.
   intros I Hk Hm Hvb H. destruct m; simpl in Hm; try contradiction; simpl in H.
   - (* Issue *)
@@ -145,9 +148,9 @@ Proof.
     pose proof (MB.fee_handler_effect _ _ _ _ _ Hf) as (Hb1 & _).
     eapply K_bank_only; [eapply MB.bank_pay_only; eassumption|].
     eapply K_bank_only; [eapply MB.bank_mint_only; eassumption|].
-    pose proof (K_bank_only fee _ _ Hb1 Hk) as Hk1.
+    pose proof (K_bank_only _ _ Hb1 Hk) as Hk1.
     apply MB.bank_only_fields in Hb1. destruct Hb1 as (Ht1 & _).
-    match goal with |- K fee (M.upsert_token ?a ?b) => destruct (MP.upsert_fields a b) as (Hut & _ & _ & _ & Hub & _ & Hup & _); pose proof (owned_upsert a b) as Huo end.
+    match goal with |- K (M.upsert_token ?a ?b) => destruct (MP.upsert_fields a b) as (Hut & _ & _ & _ & Hub & _ & Hup & _); pose proof (owned_upsert a b) as Huo end.
     unfold K. rewrite Hut, Hub, Hup, Huo. cbn [M.t_symbol M.t_owner].
     apply Kf_new; [exact Hk1|rewrite Ht1; exact Hs|].
     unfold tok_good. cbn [M.t_symbol M.t_minunit M.t_name M.t_initial M.t_max M.t_scale M.t_owner].
@@ -167,41 +170,42 @@ Proof.
   - (* Burn *)
     apply MP.do_burn_inv in H. destruct H as (t & s1 & _ & Hs & Hb).
     eapply K_bank_only; [eapply MB.bank_burn_only; eassumption|].
-    pose proof (K_bank_only fee _ _ (MB.bank_send_only _ _ _ _ _ _ Hs) Hk) as Hk1.
+    pose proof (K_bank_only _ _ (MB.bank_send_only _ _ _ _ _ _ Hs) Hk) as Hk1.
     unfold K. cbn [M.upd_burned M.tokens M.owned M.burned M.pars]. apply Kf_burn; [exact Hk1|].
-    pose proof (burned_of_nonneg fee s1 denom Hk1). unfold M.validate_basic in Hvb. lia.
+    pose proof (burned_of_nonneg s1 denom Hk1). unfold M.validate_basic in Hvb. lia.
   - (* Transfer *)
     apply MP.do_transfer_inv in H. destruct H as (t & _ & Ht & Ho & ->).
     destruct Hk as (K1 & Krest). pose proof (K1 _ _ Ht) as (G1 & G2 & G3 & G4 & G5 & G6 & G7).
     unfold K. cbn [M.upd_owned M.upd_tokens M.tokens M.owned M.burned M.pars]. rewrite Ho.
-    match goal with |- Kf fee (set sym ?t' _) _ _ _ => change dst with (M.t_owner t') at 2 end.
+    match goal with |- Kf _ (set sym ?t' _) _ _ _ => change dst with (M.t_owner t') at 2 end.
     apply Kf_transfer; [exact (conj K1 Krest)|exact Ht|].
     unfold tok_good. cbn [M.t_symbol M.t_minunit M.t_name M.t_initial M.t_max M.t_scale M.t_owner].
     unfold M.validate_basic, M.valid_addr in Hvb. repeat split; try assumption. lia.
   - (* SetParams *)
-    unfold M.do_set_params in H. MB.inv_if H. inversion H. destruct Hk as (K1 & K2 & K3 & (_ & K4) & K5).
-    unfold K. cbn [M.upd_pars M.tokens M.owned M.burned M.pars].
-    split; [exact K1|split; [exact K2|split; [exact K3|split; [|exact K5]]]].
-    split; [|exact K4]. unfold pars_good. cbn [M.p_tax M.p_mint_ratio M.p_base_fee].
-    unfold M.validate_basic in Hvb. lia.
+    unfold M.do_set_params in H. MB.inv_if H. MB.inv_if H. inversion H. destruct Hk as (K1 & K2 & K3 & _ & _).
+    unfold K. cbn [M.upd_pars M.tokens M.owned M.burned M.pars M.p_fee_denom].
+    split; [exact K1|split; [exact K2|split; [exact K3|split]]].
+    + split; [|reflexivity]. unfold pars_good. cbn [M.p_tax M.p_mint_ratio M.p_base_fee].
+      unfold M.validate_basic in Hvb. lia.
+    + apply Bool.negb_false_iff in E0. unfold has in E0. destruct (get denom (M.tokens s)) as [t0|]; [eauto|discriminate].
 Qed.
 
-Lemma step_K fee s m : MP.IdInv s -> MW.c09_msg m -> K fee s -> K fee (M.step s m).
+Lemma step_K s m : MP.IdInv s -> MW.c09_msg m -> K s -> K (M.step s m).
 Proof.
   intros I Hm Hk. destruct (MP.step_cases s m) as [(s' & E & ->)|[_ ->]]; [|exact Hk].
-  apply MP.exec_inv in E. destruct E as [Hvb E]. exact (handle_K fee s m s' I Hk Hm Hvb E).
+  apply MP.exec_inv in E. destruct E as [Hvb E]. exact (handle_K s m s' I Hk Hm Hvb E).
 Qed.
 
-Lemma run_K fee ms : forall s, MP.IdInv s -> Forall MW.c09_msg ms -> K fee s -> K fee (M.run s ms).
+Lemma run_K ms : forall s, MP.IdInv s -> Forall MW.c09_msg ms -> K s -> K (M.run s ms).
 Proof.
   induction ms as [|m ms IH]; intros s I Hms Hk; [exact Hk|]. inversion Hms as [|? ? Hm Hms']; subst.
   apply IH; [apply MP.step_IdInv; exact I|exact Hms'|apply step_K; assumption].
 Qed.
 
 (** the harness genesis: the native token, valid parameters with the native symbol as fee denom *)
-Lemma genesis_K p balances ss reg : pars_good p -> M.p_fee_denom p = M.STAKE -> K M.STAKE (M.genesis p balances ss reg).
+Lemma genesis_K p balances ss reg : pars_good p -> M.p_fee_denom p = M.STAKE -> K (M.genesis p balances ss reg).
 Proof.
-  intros Hp Hf. unfold K, M.genesis. cbn [M.tokens M.owned M.burned M.pars].
+  intros Hp Hf. unfold K, M.genesis. cbn [M.tokens M.owned M.burned M.pars]. rewrite Hf.
   split; [|split; [|split; [intros d v []|split; [split; assumption|]]]].
   - intros sym t. simpl. destruct (eq_dec sym M.STAKE); [|discriminate]. intros H. inversion H; subst.
     unfold tok_good, M.native_token, M.STAKE, M.valid_sym, M.MAXINIT, M.MAXU64, M.MODULE. cbn. repeat split; lia.
@@ -267,11 +271,10 @@ Proof. induction l as [|a l IH]; intros acc; [reflexivity|]. cbn [fold_left map]
 (** ** Part 3: [invb] of the abstraction, from [IdInv], [WF] and [K] *)
 Section Reach.
   Variables (rs rm : M.name -> Z) (ro : M.acct -> Z) (nlen : Z -> Z).
-  Variable fee : M.name.
   Variable s : M.state.
   Hypothesis I : MP.IdInv s.
   Hypothesis W : MW.WF s.
-  Hypothesis Hk : K fee s.
+  Hypothesis Hk : K s.
   Hypothesis rs_inj : inj_on rs (map fst (M.tokens s)).
   Hypothesis rm_inj : inj_on rm (map fst (M.minunits s)).
   Hypothesis rm_nn : forall n, 0 <= rm n.
@@ -401,9 +404,9 @@ Section Reach.
     { unfold G.params_ok, abs_prm, G.one_dec. cbn [G.p_tax G.p_ratio G.p_fee G.p_beacon snd].
       unfold Irismod.Base.Dec.P18 in P1, P2. destruct (M.p_beacon (M.pars s)); lia. }
     assert (H10 : has (fst (G.p_fee (abs_prm rs (M.pars s)))) T = true).
-    { unfold abs_prm. cbn [G.p_fee fst]. rewrite P4. unfold has. rewrite (get_osort lt1 _ _ nd_T0).
-      rewrite (NoDup_get_some _ (rs fee) (abs_tok rs rm ro nlen tf) nd_T0); [reflexivity|].
-      apply in_map_iff. exists (fee, tf). split; [reflexivity|exact (get_In _ _ _ K5)]. }
+    { unfold abs_prm. cbn [G.p_fee fst]. unfold has. rewrite (get_osort lt1 _ _ nd_T0).
+      rewrite (NoDup_get_some _ (rs (M.p_fee_denom (M.pars s))) (abs_tok rs rm ro nlen tf) nd_T0); [reflexivity|].
+      apply in_map_iff. exists (M.p_fee_denom (M.pars s), tf). split; [reflexivity|exact (get_In _ _ _ K5)]. }
     unfold G.invb. do 9 (apply andb_true_intro; split; [|first [exact H10|exact H9|exact H8|exact H7|exact H6|exact H5|exact H4|exact H3|exact H2]]). exact H1.
   Qed.
 End Reach.
@@ -438,10 +441,10 @@ Section Hist.
   Theorem reachable_token : G.invb (abs rs rm ro nlen s) = true.
   Proof.
     pose proof (MC.reg_id _ (MC.genesis_RegInv p balances ss reg)) as I0.
-    apply (reachable_token_state rs rm ro nlen M.STAKE s);
+    apply (reachable_token_state rs rm ro nlen s);
       first [ exact (MP.run_IdInv ms _ I0)
             | exact (run_WF ms _ I0 (MW.genesis_WF p balances ss reg Hb))
-            | exact (run_K M.STAKE ms _ I0 Hms (genesis_K p balances ss reg Hp Hf))
+            | exact (run_K ms _ I0 Hms (genesis_K p balances ss reg Hp Hf))
             | assumption ].
   Qed.
 
